@@ -61,20 +61,6 @@ pub(crate) fn det_t_value(confidence: Confidence, degrees_of_freedom: f64) -> f6
     (confidence.quantile() - 0.5) * 8.0 + 1.0 / degrees_of_freedom
 }
 
-// ---- frame condition (C01 / C10): interval_bounds writes to nothing but its own locals (see kani/contracts.json)
-#[kani::proof_for_contract(interval_bounds)]
-#[kani::stub(crate::stats::t_value, det_t_value)]
-#[kani::stub(crate::stats::z_value, det_z_value)]
-fn c10_frame_interval_bounds_writes_no_hidden_state() {
-    let c = any_confidence();
-    let mean: f64 = kani::any();
-    let sem: f64 = kani::any();
-    let dof: f64 = kani::any();
-    kani::assume(dof > 0.0);
-    let (lo, _hi) = interval_bounds(c, mean, sem, dof);
-    kani::cover!(lo.is_finite());
-}
-
 // ---- C01 / C10: interval_bounds takes its critical value from t_value below the population limit and from z_value from it
 // on, AT THE CONFIDENCE IT WAS GIVEN, and returns (mean - crit * sem, mean + crit * sem).  The two statrs entry points are
 // replaced by deterministic functions of their arguments, so "which function, which confidence, which dof" is observable.
